@@ -8,8 +8,8 @@ HERE = os.path.dirname(os.path.abspath(__file__))
 
 BOUNDED = {
     "C01": "`save/load` (A: `np.savez/np.load`), dtype matrix (iteration / `tolist` are proved for an arbitrary iteration index)",
-    "C02": "end-to-end for selectors other than (row slice, column slice); column steps beyond the representatives of the e2e family only through the callee families",
-    "C03": "end-to-end assignment for selectors / value kinds other than (row slice, column slice) = scalar",
+    "C02": "end-to-end composition for selector combinations outside the e2e families (which cover rows by slice / index array / boolean mask, columns by slice or none, integer forms); column steps other than 1, 2, -1, -2, -3 only through the callee families",
+    "C03": "end-to-end assignment for value kinds other than a scalar (row / column / ragged values go through `_set_data_range` and the broadcast families) and selector combinations outside the e2e families",
     "C04": "numpy's result-dtype table, dtype matrix",
     "C05": "float / dtype matrix (`mean` is proved as sum / count over the callee contracts; float division uninterpreted)",
     "C06": "derived-vs-fresh comparison under every probe (representation independence end to end)",
